@@ -27,6 +27,9 @@ open Classical in
   abs := fun a => |a|
   pmod a b := a - b * (⌊a / b⌋ : ℝ)
   finite _ := true
+  ofDecimal neg m e := (if neg then -1 else 1) * (m : ℝ) * (10 : ℝ) ^ e
+  inf := 0
+  nan := 0
   rpow := fun a b => a ^ b
   sqrt := Real.sqrt
   exp := Real.exp
